@@ -268,21 +268,18 @@ class LiteralProvider(LoaderProvider, DumperProvider):
                     pass
                 raise BadVariantLoadError(allowed_values_repr, data)
 
-            return self._get_literal_loader_with_enum(
-                literal_loader_sc,
-                enum_loaders,
-                allowed_values_with_types,
-            )
+            literal_loader = literal_loader_sc
+            allowed_values = self._get_allowed_values_collection(cases)
+        else:
+            allowed_values = self._get_allowed_values_collection(cases)
 
-        allowed_values = self._get_allowed_values_collection(cases)
-
-        def literal_loader(data):
-            try:
-                if data in allowed_values:
-                    return data
-            except TypeError:  # unhashable data can not be a member
-                pass
-            raise BadVariantLoadError(allowed_values_repr, data)
+            def literal_loader(data):
+                try:
+                    if data in allowed_values:
+                        return data
+                except TypeError:  # unhashable data can not be a member
+                    pass
+                raise BadVariantLoadError(allowed_values_repr, data)
 
         if bytes_cases and not enum_loaders:
             return self._get_literal_loader_with_bytes(literal_loader, allowed_values, bytes_loader)
